@@ -1,12 +1,13 @@
 package spec
 
 import (
-	"strings"
 	"bytes"
 	"fmt"
 	"math"
 	"reflect"
 	"sort"
+	"strings"
+	"sync/atomic"
 	"time"
 
 	"verifh/ref"
@@ -27,11 +28,14 @@ type AbsVal struct {
 	TSec     int64
 	TNsec    int64
 	TOff     int
-	Names    []string
-	Fields   []AbsVal
-	Items    []AbsVal
-	Keys     []string
-	Vals     []AbsVal
+	// Zone is the name and abbreviation of the time's location, copied; only set by
+	// AbsStrict, and only compared when both sides have it.
+	Zone   *string
+	Names  []string
+	Fields []AbsVal
+	Items  []AbsVal
+	Keys   []string
+	Vals   []AbsVal
 }
 
 const (
@@ -70,8 +74,24 @@ func (a AbsVal) String() string {
 }
 
 func absTime(t time.Time) AbsVal {
-	_, off := t.Zone()
-	return AbsVal{K: "time", TSec: t.Unix(), TNsec: int64(t.Nanosecond()), TOff: off}
+	name, off := t.Zone()
+	a := AbsVal{K: "time", TSec: t.Unix(), TNsec: int64(t.Nanosecond()), TOff: off}
+	if absZones.Load() {
+		z := strings.Clone(t.Location().String() + "/" + name)
+		a.Zone = &z
+	}
+	return a
+}
+
+var absZones atomic.Bool
+
+// AbsStrict is Abs that also records what else hangs off a value without being
+// part of its Avro meaning (the name of a time's location), for checks that
+// compare two snapshots of the same object.
+func AbsStrict(ts TypeSpec, omit bool, v reflect.Value) AbsVal {
+	absZones.Store(true)
+	defer absZones.Store(false)
+	return Abs(ts, omit, v)
 }
 
 // Abs computes the denotation of a Go value of type ts in a position that is a
@@ -377,6 +397,9 @@ func matchValue(a, b AbsVal, path string) error {
 	case "time":
 		if a.TSec != b.TSec || a.TNsec != b.TNsec || a.TOff != b.TOff {
 			return fmt.Errorf("%s: time %v vs %v", path, a, b)
+		}
+		if a.Zone != nil && b.Zone != nil && *a.Zone != *b.Zone {
+			return fmt.Errorf("%s: the time's location is named %q, was %q", path, *b.Zone, *a.Zone)
 		}
 	case "record":
 		if len(a.Fields) != len(b.Fields) {
